@@ -268,7 +268,7 @@ class bspline(object):
                 raise ValueError('Dimensions of x and x2 do not match.')
             x2norm = 2.0 * (x2 - self.xmin) / (self.xmax - self.xmin) - 1.0
             if self.funcname == 'poly':
-                temppoly = np.ones((nx, self.npoly), dtype='f')
+                temppoly = np.ones((nx, self.npoly), dtype=x2norm.dtype)
                 for i in range(1, self.npoly):
                     temppoly[:, i] = temppoly[:, i-1] * x2norm
             elif self.funcname == 'poly1':
